@@ -337,6 +337,48 @@ def outcome_lit(res, post_view, nm):
     return f"(Loaded (PkP {nm.ver(res['ver'])} {w}) {ws})"
 
 
+
+
+def fname_ok(s):
+    """Is s a well-formed Coq term of type fname (Base role under Old / Temp)?"""
+    s = (s or "").strip()
+    while True:
+        m = re.fullmatch(r"\((Old|Temp) (.*)\)", s)
+        if not m:
+            break
+        s = m.group(2).strip()
+    return bool(re.fullmatch(r"\(Base (Pkl|Wt|\((Lvl|Blk|Other) \d+\))\)", s))
+
+
+def wspec_ok(s):
+    s = (s or "").strip()
+    if s == "NoW" or re.fullmatch(r"\(InsW \d+\)", s):
+        return True
+    m = re.fullmatch(r"\(StdW (.*)\)", s)
+    return bool(m and fname_ok(m.group(1)))
+
+
+def sanitise(step, chk):
+    """Every name / weights reference the child reported becomes a well-typed literal (catch-all: Base (Other 0))."""
+    n = 0
+    for key in ("init_view", "post_view"):
+        for e in step.get(key) or []:
+            if not fname_ok(e.get("name")):
+                e["name"], n = "(Base (Other 0))", n + 1
+            if e.get("kind") == "pk" and e.get("state") == "whole" and not wspec_ok(e.get("w")):
+                e["w"], n = "(StdW (Base (Other 0)))", n + 1
+    if "new_w" in step and not wspec_ok(step["new_w"]):
+        step["new_w"], n = "(StdW (Base (Other 0)))", n + 1
+    if step.get("held") and not fname_ok(step["held"]):
+        step["held"], n = "(Base (Other 0))", n + 1
+    for e in step.get("events") or []:
+        for k in ("f", "a", "b"):
+            if k in e and not fname_ok(e[k]):
+                e[k], n = "(Base (Other 0))", n + 1
+    if n:
+        chk.count("literals mapped to the catch-all name", n)
+
+
 def role_of(writer):
     return "pickle" if writer.startswith("checkpoint") else "weights"
 
@@ -377,8 +419,10 @@ def prim_lit(events):
             out.append("PWrite")
         elif e["ev"] == "close":
             out.append("PClose")
-        elif e["ev"] == "remove":
-            out.append("PRemoveUnmodelled")
+        elif e["ev"] in ("exists", "wbytes"):
+            pass
+        else:
+            out.append("PUnknown")      # e.g. os.remove inside a writer: no model operation, decided as a mismatch
     return cL(out)
 
 
@@ -550,6 +594,7 @@ def run(chk):
                 chk.oblige(f"case {r['id']} step {si} reported its views", "harness", False, json.dumps(step)[-800:])
                 continue
             chk.evaluations += 1
+            sanitise(step, chk)
             role = role_of(step["writer"])
             crash = step.get("crash")
             ckind = (crash or {}).get("crash", "none") + ":" + (crash or {}).get("kind", "write" if crash else "-")
